@@ -82,6 +82,15 @@ EXPECTED = [
     'C06:bounded:tv:get_mev_for_nested:terms-are-log-derivatives-of-textbook-G',
     'C06:bounded:tv:get_mev_for_nested_mu:terms-are-log-derivatives-of-textbook-G',
     'C06:bounded:tv:nested:lnG-is-log-derivative-of-published-G',
+    'C06:bounded:tv:nested:independent-of-nest-names-and-object-reuse',
+    'C06:bounded:tv:lognested:independent-of-nest-names-and-object-reuse',
+    'C06:bounded:tv:nested_mev_mu:independent-of-nest-names-and-object-reuse',
+    'C06:bounded:tv:get_mev_for_nested:independent-of-nest-names-and-object-reuse',
+    'C06:bounded:tv:get_mev_for_nested_mu:independent-of-nest-names-and-object-reuse',
+    'C06:bounded:tv:get_mev_generating_for_nested:independent-of-nest-names-and-object-reuse',
+    'C06:bounded:tv:cnl:independent-of-nest-names-and-object-reuse',
+    'C06:bounded:tv:logcnl:independent-of-nest-names-and-object-reuse',
+    'C06:bounded:tv:cnlmu:independent-of-nest-names-and-object-reuse',
     'C06:bounded:python-evaluator:agrees-with-sem',
     'C06:bounded:compiled-engine:agrees-with-sem',
     'C06:bounded:python-evaluator:cnl-explicit-zero-allocation:agrees-with-sem',
